@@ -377,14 +377,63 @@ impl<'f> Zone for MockZone<'f> {
         }
     }
     fn iter_by_node(&self) -> IteratorByNode {
-        Box::new(self.f.nodes.iter().map(|n| {
-            let sets: Box<dyn Iterator<Item = IteratedRrset>> = Box::new(n.sets.iter().map(|s| IteratedRrset {
+        Box::new(NodeIter {
+            nodes: self.f.nodes,
+            i: 0,
+        })
+    }
+}
+
+/// Iterators with an explicit counter and the default `size_hint`: the
+/// `Vec` that scan_node's caller collects the RRsets into is then allocated
+/// with the constant minimum capacity (4), which (with
+/// --max-field-sensitivity-array-size 256) keeps its elements constants for
+/// CBMC.  With `slice::Iter`'s exact size_hint the capacity, hence the whole
+/// vector, was symbolic and every loop over it ran to the unwind bound
+/// (measured: > 50 min of symbolic execution for a one-node zone).
+struct NodeIter<'a> {
+    nodes: &'a [NodeV],
+    i: usize,
+}
+
+impl<'a> Iterator for NodeIter<'a> {
+    type Item = (&'a Name, Box<dyn Iterator<Item = IteratedRrset<'a>> + 'a>);
+    fn next(&mut self) -> Option<Self::Item> {
+        if self.i < self.nodes.len() {
+            let n = &self.nodes[self.i];
+            self.i += 1;
+            let sets: Box<dyn Iterator<Item = IteratedRrset<'a>> + 'a> = Box::new(SetIter {
+                sets: n.sets,
+                i: 0,
+                _zone: core::marker::PhantomData,
+            });
+            Some((pool(n.owner).name(), sets))
+        } else {
+            None
+        }
+    }
+}
+
+struct SetIter<'a> {
+    sets: &'static [SetV],
+    i: usize,
+    _zone: core::marker::PhantomData<&'a ()>,
+}
+
+impl<'a> Iterator for SetIter<'a> {
+    type Item = IteratedRrset<'a>;
+    fn next(&mut self) -> Option<Self::Item> {
+        if self.i < self.sets.len() {
+            let s = &self.sets[self.i];
+            self.i += 1;
+            Some(IteratedRrset {
                 rr_type: Type::from(s.rtype),
                 ttl: Ttl::from(60),
                 rdatas: Cow::Borrowed(rdataset_view(s.raw)),
-            }));
-            (pool(n.owner).name(), sets)
-        }))
+            })
+        } else {
+            None
+        }
     }
 }
 
